@@ -44,6 +44,7 @@ func C14(c *core.Ctx) {
 			qerPerPDR(c, "R3", aa, w)
 		}
 		independentIterations(c, "R3", []*ssa.Function{aa})
+		applyActionLookups(c, "R3")
 	}
 
 	for _, withExt := range []bool{true, false} {
